@@ -230,3 +230,15 @@ MUTANTS += [
     dict(id='c16-seek-skip-32bit', props=['C16'], file='lib/lha_input_stream.c',
          old='\tresult = fseek(handle, (long) bytes, SEEK_CUR);', new='\tresult = fseek(handle, (long) (bytes & 0x3ff), SEEK_CUR);'),
 ]
+MUTANTS += [
+    # ---- C13 ----
+    dict(id='c13-f2-reverted', props=['C13'], file='lib/lha_input_stream.c',
+         old='\t\t\tif (result <= 0) {\n\t\t\t\treturn 0;\n\t\t\t}', new='\t\t\tif (result < 0) {\n\t\t\t\treturn 0;\n\t\t\t}'),
+    dict(id='c13-extend-ceiling-dropped', props=['C13'], edits=[
+        ('lib/lha_file_header.c', '\tif (nbytes > LEVEL_3_MAX_HEADER_LEN) {\n\t\treturn NULL;\n\t}', ''),
+        ('lib/lha_file_header.c', '\tif (header_len > LEVEL_3_MAX_HEADER_LEN\n\t || header_len < RAW_DATA_LEN(header)) {', '\tif (header_len < RAW_DATA_LEN(header)) {')]),
+    dict(id='c13-pm1-ignores-declared-length', props=['C13', 'C14'], file='lib/lha_decoder.c',
+         old='\tif (decoder->stream_pos + buf_len > decoder->stream_length) {', new='\tif (decoder->stream_pos + buf_len > decoder->stream_length && decoder->dtype->max_read != 460) {'),
+    dict(id='c13-skip-fallback-file-loops', props=['C13'], file='lib/lha_input_stream.c',
+         old='\t\tif (result != (int) len) {\n\t\t\treturn 0;\n\t\t}', new='\t\tif (result < 0) {\n\t\t\treturn 0;\n\t\t}\n\t\tlen = result;'),
+]
